@@ -50,6 +50,8 @@ DENY_SUFFIX = (
     "Duration::from_secs_f64", "Duration::from_secs_f32",
     "std::char::from_digit", "<impl char>::to_digit", "<impl char>::from_digit",
     "Rc::<T>::try_unwrap", "std::hint::unreachable_unchecked", "std::option::Option::<T>::unwrap_unchecked",
+    # chrono: documented panics on dates the format cannot express (RFC 2822: years 0..=9999 only)
+    "chrono::DateTime::<Tz>::to_rfc2822", "chrono::NaiveDate::from_ymd", "chrono::NaiveTime::from_hms", "chrono::DateTime::<Tz>::with_timezone_unchecked",
 )
 
 
@@ -324,6 +326,10 @@ class Discharger:
                 if r:
                     return r
             return None
+        if "to_rfc2822" in d or (t.get("callee") or "").endswith("to_rfc2822"):
+            if self._year_guard(fn, S, facts, t):
+                return ("YEAR-RANGE", "the date's year is tested to lie in 0..=9999 on this path, the range RFC 2822 can express")
+            return None
         if d.startswith("Duration::new"):
             from ..interval import Interval
             iv = Interval(self.prog, fn, S)
@@ -358,6 +364,35 @@ class Discharger:
                 return ("CONST-UUID", "argument is the well-formed UUID literal %s" % m.group(1))
             return None
         return None
+
+    def _year_guard(self, fn, S, facts, t):
+        """to_rfc2822(dt) under a dominating `(0..=9999).contains(&dt.year())` (or the two comparisons)"""
+        from ..lib import call_of, interval_of
+        recv = S.val(t["args"][0]).lstrip("&*")
+        for (e, truth, g) in facts:
+            if truth is True and "RangeInclusive::<Idx>::contains(" in e and "Datelike>::year" in e:
+                m = re.search(r"contains\(&(call@\d+:[^,]*),", e)
+                cn, ca = call_of(S, m.group(1)) if m else (None, [])
+                if cn and cn.endswith("RangeInclusive::<Idx>::new") and len(ca) >= 2 and ca[0] in ("c:0", "c:1") and ca[1] == "c:9999":
+                    return True
+                # a constant range is promoted: its construction lives in one of the function's promoted bodies
+                for pname, pf in self.prog.promoted.items():
+                    if not pname.startswith(fn.name + "::promoted["):
+                        continue
+                    for bl in pf.blocks:
+                        tt = bl["term"]
+                        if tt["t"] == "call" and (tt.get("callee") or "").endswith("RangeInclusive::<Idx>::new"):
+                            av = [a.get("int") for a in tt["args"]]
+                            if len(av) >= 2 and av[0] in (0, 1) and av[1] == 9999:
+                                return True
+        yexpr = [e for (e, tr, g) in facts if "Datelike>::year(" in e]
+        for e in yexpr:
+            mm = re.search(r"(<chrono::DateTime<Tz> as chrono::Datelike>::year\([^()]*(\([^()]*\))*[^()]*\))", e)
+            if mm:
+                lo, hi, ex = interval_of(facts, mm.group(1))
+                if lo is not None and hi is not None and lo >= 0 and hi <= 9999:
+                    return True
+        return False
 
     def _get_some(self, fn, S, facts, ix):
         """a dominating fact says `<[T]>::get(_, ix)` (or Vec::get) was Some: directly, or through the Continue edge of `?`"""
